@@ -29,8 +29,10 @@ def stage_blocks(case, stage):
 
 def batch(case, stage, data_coord, seed, micro=0):
     gen = torch.Generator().manual_seed(seed * 1009 + stage * 131 + data_coord * 17 + micro * 7 + 1)
-    x = torch.randn(case['N'], case['h'], generator=gen)
-    r = torch.randn(case['N'], case['h'], generator=gen)
+    # [batch, hidden] or, as GPT-NeoX feeds its layers, [seq, batch, hidden]
+    shape = (case['seq'], case['N'], case['h']) if case.get('seq') else (case['N'], case['h'])
+    x = torch.randn(shape, generator=gen)
+    r = torch.randn(shape, generator=gen)
     pd = kmodel.dt(case.get('param_dtype')) or torch.float32
     return x.to(pd), r.to(pd)
 
@@ -244,8 +246,9 @@ def run_reference(case, program, stage=0, observe=()):
         model.zero_grad(set_to_none=True)
         for micro in range(case.get('accum', 1)):
             xs, rs = zip(*[batch(case, stage, dcoord, op['seed'], micro) for dcoord in range(case['data'])])
-            y = model(torch.cat(xs, 0))
-            sum(loss_fn(yc, r, case['N']) for yc, r in zip(y.split(case['N'], 0), rs)).backward()
+            bdim = 1 if case.get('seq') else 0          # the batch dimension ([seq, batch, hidden] inputs)
+            y = model(torch.cat(xs, bdim))
+            sum(loss_fn(yc, r, case['N']) for yc, r in zip(y.split(case['N'], bdim), rs)).backward()
         for p in model.parameters():
             p.grad /= case['data'] * case.get('accum', 1)
         rec = {'i': i, 'op': 'train', 'before': {n: p.grad.detach().clone() for n, p in model.named_parameters()}}
